@@ -1,9 +1,66 @@
 import RefurbVerif.Wire.Basic
+import RefurbVerif.Wire.Settings
+import RefurbVerif.Wire.Report
+import RefurbVerif.Wire.Paths
+import RefurbVerif.Model.Run
+import RefurbVerif.Generated.NoqaLines
 open Lean
 
 namespace RefurbVerif.Wire
+open RefurbVerif.Run
 
-/-- driver verbs of the whole-run model (Model/Run.lean): filled in by the property that owns it -/
-def handleRun (_verb : String) (_j : Json) : Option Json := none
+namespace RunW
+
+def toRaw (j : Json) : RawDiag :=
+  { line := int j "line", col := int j "col", pfx := chars j "prefix", code := nat j "code", msg := chars j "msg" }
+
+def toFileIn (j : Json) : FileIn :=
+  { path := chars j "path", rel := chars j "rel", source := chars j "source", dump := chars j "dump",
+    raw := (arr j "raw").map toRaw }
+
+def toMypy (j : Json) : Mypy :=
+  if str j "r" == "failed" then .failed ((strs j "lines").map String.toList)
+  else .built ((arr j "files").map toFileIn)
+
+/-- `{env_color, args, file, checks, mypy, load_error?, cwd, links, fuel}` -/
+def toRunInput (j : Json) : RunInput :=
+  { envColor := bool j "env_color"
+    argv := strs j "args"
+    config := toFileOutcome (obj j "file")
+    lineCfg := Generated.noqaLineCfg
+    checks := (arr j "checks").map toCheckSel
+    mypy := toMypy (obj j "mypy")
+    loadError := (optStr j "load_error").map String.toList
+    resolver := Paths.resolvePy (toLinks j "links") (nat j "fuel") (strs j "cwd") }
+
+def outcomeKind : Outcome → String
+  | .printed _ _ => "printed"
+  | .early .help => "help"
+  | .early .version => "version"
+  | .early .generate => "generate"
+  | .early .explain => "explain"
+  | .libraryError _ => "libraryError"
+  | .traceback _ => "traceback"
+
+end RunW
+
+/-- driver verbs of the whole-run model (Model/Run.lean).
+    `run_main`: JSON of a `RunInput` ↦ `{stdout, exit, kind}`;
+    `run_items`: the list `run_refurb` returns for the loaded settings (for diagnosis of a disagreement) -/
+def handleRun (verb : String) (j : Json) : Option Json :=
+  match verb with
+  | "run_main" =>
+    let i := RunW.toRunInput j
+    let o := run i
+    some (Json.mkObj [("stdout", String.ofList o.result.1), ("exit", o.result.2), ("kind", RunW.outcomeKind o)])
+  | "run_items" =>
+    let i := RunW.toRunInput j
+    some (match loadSettings i.envColor i.argv i.config with
+      | .ok s =>
+        match runRefurb i s with
+        | some items => Json.mkObj [("items", Json.arr (items.map itemJ).toArray)]
+        | none => Json.mkObj [("raised", "IndexError")]
+      | .error _ => Json.mkObj [("raised", "settings")])
+  | _ => none
 
 end RefurbVerif.Wire
